@@ -70,6 +70,7 @@ class Cluster:
         self.lookups: list[str] = []   # every kind-to-plural discovery (`lookup_kind`) that reached the API
         self.log_lookups = False       # opt-in: also put them into `log` as method "LOOKUP" (no call index)
         self.unknown_kinds: set[str] = set()   # opt-in: base kind names the discovery does not know (ValueError)
+        self.lookup_latency = None     # opt-in: seconds (or callable kind -> seconds) a discovery call takes
 
     # ---- what kr8s / koreo use
     @property
@@ -82,6 +83,10 @@ class Cluster:
         if self.log_lookups:   # a discovery round-trip is an API call too; it does not consume a fault index
             self.log.append({"i": None, "method": "LOOKUP", "version": None, "plural": None, "namespace_arg": None,
                              "name": kind, "body": None, "fault": None, "tag": self.tag, "applied": True})
+        if self.lookup_latency:
+            lat = self.lookup_latency(kind) if callable(self.lookup_latency) else self.lookup_latency
+            if lat:
+                await asyncio.sleep(lat)
         if base in self.unknown_kinds:     # what kr8s raises for a kind the API server does not serve
             raise ValueError(f"Kind {kind} not found.")
         return (None, base.lower() + "s", True)
